@@ -65,13 +65,12 @@ def obligations(tier, seed):
         frame([TTX], [7], TS=0, PMIN=184, PMAX=184, FIXED=1, DI="0x10", F2L=7),
         frame([TTX, VPS, CC, TTX], [7, 16, 21, 22], TS=1, PMIN=184, PMAX=368, FIXED=1, DI="0x10", F2L=22),   # 2 TS packets (see ts_first_pes below)
     ]
-    # SUSPECTED DEFECT of /repo (dvb_demux.c demux_ts_packet, branch "Possible after resynchronization"): when the first PES packet after TS
-    # synchronisation is exactly one TS packet long (184 bytes), its payload is copied with ts_pes_todo reaching 0 in that branch, where the
-    # "PES packet is complete" test (only made on the `consume > 0` path) is never run; the next TS packet then restarts at pes_buffer and the first
-    # frame is lost.  Refuted + replayed natively by this instance (e2e_one_frame_delivered); not in any grid until /repo is repaired:
+    # Defect of the pinned tree, repaired by fix commit (dvb_demux.c demux_ts_packet, branch "Possible after resynchronization"): when the first PES
+    # packet after TS synchronisation is exactly one TS packet long (184 bytes), its payload was copied with ts_pes_todo reaching 0 in that branch,
+    # where the "PES packet is complete" test (only made on the `consume > 0` path) never ran; the next TS packet restarted at pes_buffer and the
+    # first frame was lost.  Decided by this instance (e2e_one_frame_delivered), kept in the quick grid:
     ts_first_pes = [frame([TTX, TTX], [22, 320], TS=1, PMIN=184, PMAX=184, FIXED=0, DI="0x99", F2L=320)]
-    if os.environ.get("VERIF_C06_TS_FIRST_PES"):
-        pk_q = pk_q + ts_first_pes
+    pk_q = pk_q + ts_first_pes
     pk_eq_t = [frame([VPS], [16], TS=0, PMIN=184, PMAX=184, FIXED=1, DI="0x10", F2L=16)] + \
               [frame([TTX], [l], TS=0, PMIN=184, PMAX=184, FIXED=0, DI="0x99", F2L=l) for l in (22, 335)] + \
               [frame([TTX, TTX], [7, 0], TS=0, PMIN=184, PMAX=184, FIXED=0, DI="0x99", F2L=7)]      # undefined line last: boundary by line 7 <= 7
